@@ -103,7 +103,7 @@ def run(ctx: Ctx):
     rc = ctx.mc("MC_VTimezone", cfg_text(spec="Spec", constants={"Y0s": {2001}, "Ends": {"open"}, "Cross": True},
                                          invariants=["InvUnique", "InvNonEmpty", "Vec"]),
                 defs={"OffPairs": {(60, 120)}, "Fixed": {0}}, workers=4, timeout=600)
-    cross = [v for v in rc.prints if len(v["z"]) == 3 and [o["name"] for o in v["z"]] == ["A", "B", "C"]]
+    cross = [v for v in rc.prints if [o["name"] for o in v["z"]] == ["A", "B"]]
     if len(cross) < 4:
         raise Machinery("cross-ordered zones missing")
     zones = zones + cross
